@@ -449,17 +449,31 @@ def parseNanoseconds (value : Bytes) (nbytes : Nat) : Except String Int :=
 
 def leadingDigits (s : Bytes) : Nat := (s.takeWhile isDigitB).length
 
-/-- `parseSignedOffset`: length of `[+-]\d+` with value ≤ 23, else 0. -/
+/-- `leadingInt`: value of the leading digits, `none` on overflow – by VALUE (`x > 1<<63/10` before the
+multiplication, `x > 1<<63` after it), so leading zeros never overflow.  Shared by `parseSignedOffset`
+and `ParseDuration`. -/
+def leadingInt : Bytes → Nat → Option (Nat × Bytes)
+  | [], x => some (x, [])
+  | c :: r, x =>
+    if c < 48 ∨ c > 57 then some (x, c :: r)
+    else if x > 9223372036854775808 / 10 then none
+    else
+      let x' := x * 10 + (c.toNat - 48)
+      if x' > 9223372036854775808 then none else leadingInt r x'
+
+/-- `parseSignedOffset`: length of `[+-]\d+` with value ≤ 23, else 0.  The digits are read by
+`leadingInt` (so `GMT+0000000000000000000007` is a 26-byte abbreviation, while 20 digits whose value
+passes 2^63 are refused); "nothing consumed" is `value[1:] == rem`. -/
 def parseSignedOffset (value : Bytes) : Nat :=
   match value with
   | sign :: r =>
     if sign ≠ 45 ∧ sign ≠ 43 then 0
-    else
-      let n := leadingDigits r
-      if n = 0 then 0
-      else if n > 19 then 0 -- leadingInt overflow
-      else if digitsVal (r.take n) 0 > 23 then 0
-      else 1 + n
+    else match leadingInt r 0 with
+      | none => 0
+      | some (x, rem) =>
+        if rem.length = r.length then 0
+        else if x > 23 then 0
+        else 1 + (r.length - rem.length)
   | [] => 0
 
 /-- `parseTimeZone(value)`: length of the zone abbreviation at the head of `value`. -/
@@ -823,12 +837,25 @@ def compileCheck (fn : String) (argc : Nat) (isConst : Nat → Bool) (enumOk zon
 
 /-! ## Go `time`: durations -/
 
-/-- `Duration.String()` for |d| ≥ 1 s or d = 0 (`none`: sub-second magnitudes, not produced from
-whole seconds). -/
+/-- `fmtFrac(buf, v, prec)` followed by `fmtInt`: `v / 10^prec`, then the `prec` digits of the remainder
+without trailing zeros, the point omitted when nothing is left. -/
+def fmtFracInt (v prec : Nat) : Bytes :=
+  let frac := dropTrailingZeros (natPad (v % 10 ^ prec) prec)
+  natDigits (v / 10 ^ prec) ++ (if frac.isEmpty then [] else 46 :: frac)
+
+/-- The special case of `Duration.format` for magnitudes below one second: `ns` without fraction,
+`µs` (the micro sign U+00B5, two bytes) with up to 3 digits, `ms` with up to 6. -/
+def subSecondString (u : Nat) : Bytes :=
+  if u < 1000 then natDigits u ++ asc "ns"
+  else if u < 1000000 then fmtFracInt u 3 ++ [0xC2, 0xB5, 115]
+  else fmtFracInt u 6 ++ asc "ms"
+
+/-- `Duration.String()`.  (Always `some`; the `Option` is kept from the rounds in which sub-second
+magnitudes – `{durationformat n}` with `n·10^9 mod 2^64` below 10^9 in magnitude – were declined.) -/
 def durationString (d : Int) : Option Bytes :=
   let u := d.natAbs
   if u = 0 then some (asc "0s")
-  else if u < 1000000000 then none
+  else if u < 1000000000 then some (if d < 0 then 45 :: subSecondString u else subSecondString u)
   else
     let frac := dropTrailingZeros (natPad (u % 1000000000) 9)
     let s := u / 1000000000
@@ -857,16 +884,6 @@ def unitOf (u : Bytes) : Option Nat :=
   else if u = asc "m" then some 60000000000
   else if u = asc "h" then some 3600000000000
   else none
-
-/-- `leadingInt`: value of the leading digits, `none` on overflow. -/
-def leadingInt : Bytes → Nat → Option (Nat × Bytes)
-  | [], x => some (x, [])
-  | c :: r, x =>
-    if c < 48 ∨ c > 57 then some (x, c :: r)
-    else if x > 9223372036854775808 / 10 then none
-    else
-      let x' := x * 10 + (c.toNat - 48)
-      if x' > 9223372036854775808 then none else leadingInt r x'
 
 inductive DurRes
   | ok (d : Int) | err
@@ -980,12 +997,19 @@ def timeAttrStage (attr : Bytes) (loc : Loc) (arg : Bytes) (off : Int) : Out :=
       | some b => .val b
       | none => .unmodelled "no-such-attr"
 
-/-- `f` of `kfTimeParse`: `strconv.FormatInt(t.Unix(), 10)`. -/
+/-- `f` of `kfTimeParse`: `strconv.FormatInt(t.Unix(), 10)`.  An abbreviation other than the one in
+force: rare's UTC is `time.UTC`, whose zone list is empty, so `lookupName` knows no name at all – Go
+fabricates a zone and does NOT shift the instant (also for `GMT+7`): the wall clock is read as UTC, no
+oracle needed.  For a named location whether the name is known is a tz-database fact (op `zn` /
+`instantInN` have the zone list; this older op declines). -/
 def unixOut (loc : Loc) (off : Int) (abbr : Bytes) (p : Parsed) : Out :=
   let z := zoneAt loc off abbr
   match instantOf p z.1 z.2 with
   | some u => .val (itoa u)
-  | none => .unmodelled "zone-abbreviation"
+  | none =>
+    match loc with
+    | .utc => .val (itoa (wallSeconds p.dt))
+    | _ => .unmodelled "zone-abbreviation"
 
 /-- `f` of `kfBucketTime`: `t.Format(bucketFormat)`.  The wall clock of a parsed time is the one
 that was written when the text carries `Z`/`UTC`, a numeric offset, nothing (the location applies),
